@@ -28,6 +28,7 @@ type replayFile struct {
 	Property string                     `json:"property"`
 	Harness  string                     `json:"harness"`
 	Label    string                     `json:"label"`
+	Thorough bool                       `json:"thorough"`
 	Values   map[string]json.RawMessage `json:"values"`
 }
 
@@ -283,3 +284,12 @@ func ExactBigEndian(on bool) {}
 
 // CollisionFree(true): assume the hash functions are injective on the values that occur (stated per harness).
 func CollisionFree(on bool) {}
+
+// ExactDecimalLengths(true): decimal formatting gets exact digit-count axioms (len(dec n) = k iff 10^(k-1) <= n < 10^k).
+func ExactDecimalLengths(on bool) {}
+
+// Thorough reports whether the run is the thorough tier (harnesses widen their bounds with it).
+func Thorough() bool {
+	load()
+	return replay.Thorough
+}
